@@ -71,6 +71,9 @@ SCENARIOS["fragment-on-union-spread-at-a-member-object-field"] = FRAGS + (
     'fragment ActorParts on Actor { ... on User { name } ... on Bot { model } }\nquery Q { me { id ...ActorParts } }')
 SCENARIOS["fragment-on-parent-interface-spread-at-a-child-interface-field"] = FRAGS + (
     'fragment NodeBits on Node { id }\nquery Q { named { name ...NodeBits } me { name ...NodeBits } }')
+# a __typename the author wrote with an alias or a directive stays as written (the automatic one is added next to it or not at all)
+SCENARIOS["authored-typename-with-alias-or-directive-at-abstract-positions"] = FRAGS + (
+    'query T($v: Boolean!) { node(id: "1") { __typename @include(if: $v) id } me { kind: __typename id } }')
 REFUSAL_OK = {"mixin-on-inline-fragment-and-fragment-spread"}
 SCENARIOS["mixin-on-fragment-definition"] = FRAGS + 'fragment WithMixin on User @mixin(from: "pyvc_mixins", import: "FragDefMixin") { id }\nquery M { me { ...WithMixin } }'
 
@@ -80,7 +83,8 @@ def _strip(doc_node):
     """remove __typename selections and @mixin directives (the two documented rewrites)"""
     class V_(G.Visitor):
         def enter_field(self, node, *_):
-            if node.name.value == "__typename":
+            # only the plain `__typename` is what the generator adds by itself; an aliased or conditional one is the author's
+            if node.name.value == "__typename" and node.alias is None and not node.directives:
                 return G.REMOVE
             node.directives = tuple(d for d in node.directives if d.name.value != "mixin")
             return node
